@@ -94,3 +94,19 @@ fn enc_dec_pushb() {
     kani::assume(len <= 33);
     enc_dec(OpCode::PushB(buf[..len].to_vec()))
 }
+
+// ---- edge values of the three literal-carrying instructions, one concrete operand after the other (constant-propagated by CBMC: seconds).
+// NOT a full-domain proof: the full-domain statements are enc_dec_pushi / enc_dec_pushic / enc_dec_pushb above (15-35 minutes each, thorough
+// tier); this harness keeps the quick tier sensitive to boundary mistakes (operand widths, length prefixes 0 / 32 / 33) when opcode.rs changed.
+#[kani::proof] #[kani::unwind(40)]
+fn enc_dec_push_edges() {
+    let max = ethnum::U256::MAX;
+    let one = ethnum::U256::ONE;
+    let vals = [ethnum::U256::ZERO, one, ethnum::U256::new(255), ethnum::U256::new(256), ethnum::U256::new(u128::MAX), one << 128, (one << 248) - one, one << 248, one << 255, max];
+    let mut i = 0;
+    while i < 10 { enc_dec(OpCode::PushI(vals[i])); enc_dec(OpCode::PushIC(vals[i])); i += 1; }
+    enc_dec(OpCode::PushB(Vec::new()));
+    enc_dec(OpCode::PushB(vec![0u8; 1]));
+    enc_dec(OpCode::PushB(vec![0xffu8; 32]));
+    enc_dec(OpCode::PushB(vec![7u8; 33]));
+}
